@@ -70,11 +70,13 @@ fn op_state(out: &mut Out, slot: &str, depth: usize, s: &State) {
 /// `W` line: the word streams the real code hashes for this state (bucket folds in iteration
 /// order and in (key_hash, value_hash) order, and the root fold), each with its REAL hash
 fn words_entries(s: &State, depth: usize, d: &StateDigest, acc: &mut Vec<(Vec<u64>, u64)>) {
-    let nb = 1usize << depth;
+    let nb = d.buckets.len(); // the depth in effect is the digest's (configured depths are capped)
     let mut buckets: Vec<Vec<KeyDigest>> = vec![Vec::new(); nb];
     for (k, v) in s.iter() {
         let kd = KeyDigest::new(k, v);
-        buckets[kd.bucket(depth)].push(kd);
+        if kd.bucket(depth) < nb {
+            buckets[kd.bucket(depth)].push(kd);
+        }
     }
     for ds in &buckets {
         if ds.is_empty() {
@@ -277,7 +279,7 @@ fn digest_ops(out: &mut Out, rng: &mut Rng, p: &Pair, src: &str) -> (StateDigest
     out.op("CMP a b".into(), format!("differs={} div={}", da.differs_from(&db) as u8, div.iter().map(|x| x.to_string()).collect::<Vec<_>>().join(",")));
     // get_keys_in_buckets on the divergent buckets / on random buckets, random limit
     for (slot, s) in [("a", &p.a), ("b", &p.b)] {
-        let buckets: Vec<usize> = if rng.chance(1, 2) { div.clone() } else { (0..rng.below(4)).map(|_| rng.below(1 << p.depth) as usize).collect() };
+        let buckets: Vec<usize> = if rng.chance(1, 2) { div.clone() } else { (0..rng.below(4)).map(|_| rng.below(da.buckets.len() as u64) as usize).collect() };
         let limit = match rng.below(4) { 0 => 0, 1 => rng.range(1, 3) as usize, _ => 1000 };
         let mut mgr = AntiEntropyManager::new(ReplicaId::new(1), AntiEntropyConfig::default());
         mgr.config.merkle_tree_depth = p.depth;
@@ -297,7 +299,7 @@ fn digest_ops(out: &mut Out, rng: &mut Rng, p: &Pair, src: &str) -> (StateDigest
     // on both maps; for two maps of the same state the answers must be identical, whatever the
     // two iteration orders are
     {
-        let buckets: Vec<usize> = (0..(1usize << p.depth)).filter(|_| rng.chance(2, 3)).collect();
+        let buckets: Vec<usize> = (0..da.buckets.len()).filter(|_| rng.chance(2, 3)).collect();
         let limit = match rng.below(3) { 0 => 1, 1 => rng.range(1, p.a.len().max(1) as u64) as usize, _ => 1000 };
         let mut mgr = AntiEntropyManager::new(ReplicaId::new(1), AntiEntropyConfig::default());
         mgr.config.merkle_tree_depth = p.depth;
@@ -338,8 +340,11 @@ fn digest_ops(out: &mut Out, rng: &mut Rng, p: &Pair, src: &str) -> (StateDigest
             by_filter_bucket.entry(kd.bucket(p.depth)).or_default().push(kd);
         }
         let mut bad: Option<String> = None;
-        if dg.buckets.len() != 1usize << p.depth || dg.root_hash != d.root_hash {
-            bad = Some(format!("the digest has {} buckets, the filters bucket keys into 2^{} = {}", dg.buckets.len(), p.depth, 1usize << p.depth));
+        let max_filter_bucket = by_filter_bucket.keys().next_back().cloned();
+        if !dg.buckets.len().is_power_of_two() || (p.depth < 64 && dg.buckets.len() > 1usize << p.depth) || dg.root_hash != d.root_hash {
+            bad = Some(format!("the digest has {} buckets for a configured depth of {}", dg.buckets.len(), p.depth));
+        } else if max_filter_bucket.map(|b| b >= dg.buckets.len()).unwrap_or(false) {
+            bad = Some(format!("the digest has {} buckets, but the key filters put a key into bucket {}", dg.buckets.len(), max_filter_bucket.unwrap()));
         } else {
             for (i, n) in dg.buckets.iter().enumerate() {
                 let want = match by_filter_bucket.get(&i) {
@@ -435,9 +440,20 @@ fn sync_ops(out: &mut Out, p: Pair, limit: usize, max_rounds: usize, src: &str) 
         let (na, nb) = (&sim.nodes[0].replica_state.replicated_keys, &sim.nodes[1].replica_state.replicated_keys);
         out.op(format!("SYNC {}", limit), format!("{} | {}", show_state("a", na), show_state("b", nb)));
         last_changed = canon(na) != canon(&pa) || canon(nb) != canon(&pb);
-        out.count(if limit >= pop_a.max(pop_b) { "sync:limit>=population" } else { "sync:limit<population" });
+        // a configured limit must let a sync make progress: the limit in effect is at least one key
+        let eff = limit.max(1);
+        // the answers run_anti_entropy_sync will request from both sides (the same public call)
+        for (slot, st, pop) in [("a", &pa, pop_a), ("b", &pb, pop_b)] {
+            let n = sim.nodes[0].anti_entropy.get_keys_in_buckets(st, &div).len();
+            if differs && n != eff.min(pop) {
+                out.violation("C18:sync:sim:response-incomplete",
+                    &format!("get_keys_in_buckets answers {} key(s) of side {} although it holds {} key(s) in the divergent buckets and max_keys_per_sync = {}", n, slot, pop, limit),
+                    json!({"path": "sim", "depth": depth, "limit": limit, "divergent_buckets": div, "state": show_state(slot, st), "source": src}));
+            }
+        }
+        out.count(if eff >= pop_a.max(pop_b) { "sync:limit>=population" } else { "sync:limit<population" });
         // oracle: with a sufficient limit every key of a divergent bucket holds the merge on both sides
-        if differs && !div.is_empty() && limit >= pop_a.max(pop_b) {
+        if differs && !div.is_empty() && eff >= pop_a.max(pop_b) {
             let keys: BTreeSet<&String> = pa.keys().chain(pb.keys()).collect();
             for k in keys {
                 let sample = pa.get(k).or(pb.get(k)).unwrap();
@@ -488,11 +504,7 @@ fn sync_ops(out: &mut Out, p: Pair, limit: usize, max_rounds: usize, src: &str) 
             .max(b.iter().filter(|(k, v)| div.contains(&KeyDigest::new(k, v).bucket(depth))).count());
         if left.is_empty() {
             out.count("excluded:sync:non-commutative-merge-residue");
-        } else if limit == 0 {
-            out.violation("C18:sync:config:max_keys_per_sync=0",
-                &format!("sim: max_keys_per_sync = 0 — run_anti_entropy_sync exchanges nothing, {} key(s) can never be delivered (starvation by configuration)", left.len()),
-                json!({"path": "sim", "depth": depth, "limit": 0, "undelivered_keys": left, "a": show_state("a", a), "b": show_state("b", b), "source": src}));
-        } else if limit < pop {
+        } else if limit.max(1) < pop {
             out.violation("C18:sync:limit-starvation:sim:divergent-population>limit",
                 &format!("run_anti_entropy_sync: after {} round(s) with max_keys_per_sync = {} the sync stopped making progress: {} key(s) undelivered, the divergent buckets hold {} keys and the same first {} are re-sent every round", rounds, limit, left.len(), pop, limit),
                 json!({"depth": depth, "limit": limit, "rounds": rounds, "undelivered_keys": left, "a": show_state("a", a), "b": show_state("b", b),
@@ -609,13 +621,15 @@ fn msg_ops(out: &mut Out, p: Pair, limit: usize, full: bool, max_rounds: usize, 
             let in_req = |k: &String| full || div.contains(&KeyDigest::new(k, &pre_p[k]).bucket(depth));
             let pop = pre_p.keys().filter(|k| in_req(k)).count();
             if differs {
+                let configured_limit = limit;
+                let limit = limit.max(1); // the limit in effect: at least one key per round
                 out.count(&format!("{}:{}", path, if pop == 0 { "responder-has-nothing-requested" } else if pop < limit { "population<limit" } else if pop == limit { "population=limit" } else { "population>limit" }));
                 over_limit_last_round |= pop > limit;
                 let want = limit.min(pop);
                 let distinct: BTreeSet<&String> = resp_keys.iter().collect();
                 if resp_keys.len() < want {
                     out.violation(&format!("C18:sync:{}:response-incomplete", path),
-                        &format!("handle_sync_request answered {} key(s) although the responder holds {} requested key(s) and max_keys_per_sync = {}: requested keys are withheld", resp_keys.len(), pop, limit),
+                        &format!("handle_sync_request answered {} key(s) although the responder holds {} requested key(s) and max_keys_per_sync = {}: requested keys are withheld", resp_keys.len(), pop, configured_limit),
                         replay("response", json!({"requested_buckets": div, "answered": resp_keys})));
                 }
                 if resp_keys.len() > limit || distinct.len() != resp_keys.len() || resp_keys.iter().any(|k| !pre_p.contains_key(k) || !in_req(k)) {
@@ -660,10 +674,6 @@ fn msg_ops(out: &mut Out, p: Pair, limit: usize, full: bool, max_rounds: usize, 
         out.count("excluded:sync:non-commutative-merge-residue");
     } else if !quiescent {
         out.count(&format!("{}:round-bound-reached", path));
-    } else if limit == 0 {
-        out.violation("C18:sync:config:max_keys_per_sync=0",
-            &format!("{}: max_keys_per_sync = 0 — every answer is empty, {} key(s) can never be delivered (starvation by configuration)", path, left.len()),
-            json!({"path": path, "depth": depth, "limit": 0, "undelivered_keys": left, "a": show_state("a", a), "b": show_state("b", b), "source": src}));
     } else if over_limit_last_round {
         let cond = if full { "state-size>limit" } else { "requested-population>limit" };
         out.violation(&format!("C18:sync:limit-starvation:{}:{}", path, cond),
@@ -804,7 +814,7 @@ fn corpus(out: &mut Out, rng: &mut Rng, thorough: bool) {
     // range?  (depths 59..63: more than isize::MAX bytes -> "capacity overflow" panic, no allocation
     // is attempted; 64 / 65: the shift wraps in release builds.  Depths ~30..58 would really try to
     // allocate 24 * 2^depth bytes and abort the process: not executed.)
-    for d in [59usize, 63, 64, 65] {
+    for d in [59usize, 63, 64, 65, 1000, usize::MAX] {
         let empty: State = HashMap::new();
         let prev = std::panic::take_hook();
         std::panic::set_hook(Box::new(|_| {}));
@@ -822,6 +832,54 @@ fn corpus(out: &mut Out, rng: &mut Rng, thorough: bool) {
             out.violation("C18:config:merkle_tree_depth:digest-panics",
                 &format!("AntiEntropyConfig {{ merkle_tree_depth: {} }} is accepted, and generate_digest / StateDigest::from_state then panics ({}): a legal configuration crashes every digest computation", d, ans),
                 json!({"merkle_tree_depth": d, "call": "StateDigest::from_state(&{}, r1, 0, depth)", "observed": ans, "expected": "a digest, or a rejected configuration"}));
+        }
+    }
+    // … and a digest-driven exchange at those depths (real code only: whatever depth is configured,
+    // digest and filters must agree and one exchange with an ample limit must merge both sides)
+    for d in [21usize, 59, 63, 64, usize::MAX] {
+        if d < 59 && !thorough {
+            continue; // 2^20 buckets per digest: thorough tier only (a depth in 30..58 is never run:
+                      // code without the depth bound would really try to allocate 24 * 2^depth bytes)
+        }
+        if d == 21 {
+            // only safe when the depth is bounded: probe first with a depth that panics without the bound
+            let empty: State = HashMap::new();
+            let prev = std::panic::take_hook();
+            std::panic::set_hook(Box::new(|_| {}));
+            let ok = std::panic::catch_unwind(|| StateDigest::from_state(&empty, ReplicaId::new(1), 0, 63).buckets.len()).is_ok();
+            std::panic::set_hook(prev);
+            if !ok {
+                continue;
+            }
+        }
+        let prev = std::panic::take_hook();
+        std::panic::set_hook(Box::new(|_| {}));
+        let r = std::panic::catch_unwind(|| {
+            let cfg = AntiEntropyConfig { merkle_tree_depth: d, ..AntiEntropyConfig::default() };
+            let (ma, mb) = (AntiEntropyManager::new(ReplicaId::new(1), cfg.clone()), AntiEntropyManager::new(ReplicaId::new(2), cfg));
+            let mut a = ShardReplicaState::new(ReplicaId::new(1), ConsistencyLevel::Eventual);
+            let mut b = ShardReplicaState::new(ReplicaId::new(2), ConsistencyLevel::Eventual);
+            for i in 0..20 {
+                a.replicated_keys.insert(format!("xa{}", i), rv_lww(b"a", i + 1, 1));
+                b.replicated_keys.insert(format!("xb{}", i), rv_lww(b"b", i + 1, 2));
+            }
+            let (da, db) = (ma.generate_digest(&a.replicated_keys), mb.generate_digest(&b.replicated_keys));
+            let div = da.divergent_buckets(&db);
+            let misfiled = a.replicated_keys.iter().any(|(k, v)| KeyDigest::new(k, v).bucket(d) >= da.buckets.len());
+            let (to_b, to_a) = (ma.get_keys_in_buckets(&a.replicated_keys, &div), mb.get_keys_in_buckets(&b.replicated_keys, &div));
+            for x in to_b { b.apply_remote_delta(x); }
+            for x in to_a { a.apply_remote_delta(x); }
+            (misfiled, canon(&a.replicated_keys) == canon(&b.replicated_keys), a.replicated_keys.len())
+        });
+        std::panic::set_hook(prev);
+        out.count("extreme-depth:exchange-probed");
+        match r {
+            Ok((false, true, 40)) => {}
+            Ok((misfiled, converged, n)) => out.violation("C18:config:extreme-depth:exchange-fails",
+                &format!("merkle_tree_depth = {}: a digest-driven exchange with an ample limit does not merge the two sides (misfiled keys: {}, converged: {}, keys: {})", d, misfiled, converged, n),
+                json!({"merkle_tree_depth": d, "a": "xa0..xa19", "b": "xb0..xb19"})),
+            Err(_) => out.violation("C18:config:merkle_tree_depth:digest-panics",
+                &format!("AntiEntropyConfig {{ merkle_tree_depth: {} }}: the digest-driven exchange panics", d), json!({"merkle_tree_depth": d})),
         }
     }
     // sync intervals: should_sync / create_sync_request bookkeeping at the extremes
